@@ -785,6 +785,11 @@ func (w *Worker) step(st *State, f *Frame, ins ssa.Instruction) {
 		t, e := w.branch(st, c)
 		switch {
 		case t && e:
+			if gCfg.Verbose {
+				w.job.mu.Lock()
+				w.job.Reached["fork@"+f.fn.Name()+":"+w.posOf(x.Cond.Pos())]++
+				w.job.mu.Unlock()
+			}
 			o := st.clone()
 			o.assume(mkNot(c))
 			of := o.top()
@@ -1827,16 +1832,7 @@ func (w *Worker) builtin(st *State, f *Frame, x *ssa.Call, b *ssa.Builtin) {
 		case MapV:
 			f.env[x] = mkBV(uint64(len(w.mapObj(st, s).keys)), 64)
 		case StrV:
-			n := 0
-			for _, g := range s.Segs {
-				switch g.K {
-				case SegLit:
-					n += len(g.Lit)
-				default:
-					panic(engineErr("len of symbolic string"))
-				}
-			}
-			f.env[x] = mkBV(uint64(n), 64)
+			f.env[x] = strByteLen(s)
 		case ArrayV:
 			f.env[x] = mkBV(uint64(len(s)), 64)
 		default:
